@@ -663,8 +663,9 @@ class TypeTransformer:
         if self.no_explicit_cast:
             return t(data)  # noqa
         if not self.no_data_loss:
-            if isinstance(data, str) and data in t.__members__:
-                # (member names are strings: an unhashable input must not fail the lookup)
+            if isinstance(data, str) and data in t.__members__ and data not in t._value2member_map_:
+                # (member names are strings: an unhashable input must not fail the lookup;
+                # a member's value comes before a member's name: it is what the encoder emits)
                 return t.__members__[data]  # noqa
         member_type = getattr(t, "_member_type_", None)
         if member_type and member_type != object:
